@@ -194,6 +194,7 @@ def check_C13(report, tier, seed):
     gv.theorem_obligations(report, "GV/Props/C13.lean", "GV.Props.C13", audit=True)
     S.suite_ws(report, tier, seed, "C13")
     S.suite_ws_write(report, tier, seed, "C13")
+    S.suite_flush_service(report, "C13")
     S.suite_fidelity(report, tier, seed, "C13")
     S.suite_reconnect_fidelity(report, tier, seed, "C13")
     S.suite_results(report, tier, seed, "C13")
